@@ -459,7 +459,15 @@ def report(mod, tier, seed, worlds, results, t0, a):
             if not checked.get(lab):
                 harness_errors.append(f"obligation '{lab}' was never reached (vacuous)")
     anchors_report = []
-    for (fname, lo, hi) in ([] if a.only else getattr(mod, "ANCHORS", [])):
+    for anc in ([] if a.only else getattr(mod, "ANCHORS", [])):
+        if len(anc) == 2:  # (file, function qualname): robust against line shifts
+            fname, qual = anc
+            n = sum(1 for (f, q) in funcs if f == fname and q == qual)
+            anchors_report.append({"file": fname, "function": qual, "executed": bool(n)})
+            if n == 0:
+                harness_errors.append(f"anchored mechanism {fname}:{qual} never executed")
+            continue
+        fname, lo, hi = anc
         n = sum(1 for (f, l) in lines if f == fname and lo <= l <= hi)
         anchors_report.append({"file": fname, "lines": [lo, hi], "lines_hit": n})
         if n == 0:
@@ -542,6 +550,8 @@ def report(mod, tier, seed, worlds, results, t0, a):
     if os.environ.get("VERIF_VERBOSE"):
         for pw in sorted(per_world, key=lambda x: -x["cpu_s"])[:12]:
             print("   ", pw)
+    if aborted:
+        print(f"[{pid}] paths aborted by an exception of the code under test: {aborted}; e.g. {aborted_samples[:2]}")
     for s, d in known_hit.items():
         print(f"KNOWN-FINDING: property={pid} {d['finding'].get('description', s)} [{s}] (hit on {d['count']} counterexample(s))")
     for r in reported:
